@@ -35,18 +35,25 @@ def clearBit (f : Field) (r c : Nat) : Field × Bool :=
 
 /-! ### Histories of writes -/
 
-/-- One write of a history. -/
+/-- One write of a history: `SetBit`, `ClearBit`, `Field.Import` (set or clear, with or without
+timestamps), a view created for a peer's CreateViewMessage. -/
 inductive Op where
   | set (r c : Nat) (t : Option Civil)
   | clear (r c : Nat)
+  | imp (bits : List (Nat × Nat × Option Civil)) (clear : Bool)
+  | mkview (n : VName)
 
 def apply (f : Field) : Op → Field
   | .set r c t => (f.setBit r c t).1
   | .clear r c => (clearBit f r c).1
+  | .imp bits cl => (f.importBits bits cl).getD f
+  | .mkview n => f.mkView n
 
+/-- The write sets (r, c). -/
 def Op.touches (r c : Nat) : Op → Bool
   | .set r' c' _ => r' == r && c' == c
   | .clear _ _ => false
-
+  | .imp bits cl => !cl && bits.any (fun b => b.1 == r && b.2.1 == c)
+  | .mkview _ => false
 
 end PV.C19
